@@ -37,6 +37,9 @@ CORPUS = [
     [["RETURN", _c("limit_events", ["l", []], ["v", "True"])]],
     [["RETURN", ["i", 0]]],
     [["RETURN", ["i", 2**80]]],
+    # integer literals up to the runtime's int() limit of 4300 digits are well-formed
+    [["RETURN", ["l", [["i", 10**4298], ["i", 10**4299], ["i", 10**4299 + 7]]]]],
+    [["x", ["i", 10**4300 - 1]], ["RETURN", ["c", "limit_events", [["l", []], ["v", "x"]]]]],
     [["events", ["l", []]], ["RETURN", _c("period_union", ["v", "events"], _c("filter_period_intersect", ["v", "events"], ["v", "events"]))]],
 ]
 
@@ -99,7 +102,7 @@ class C11(Prop):
         "builtin bodies are recording stubs in the real registry (the real q2_function / q2_typecheck wrappers stay), so a call's value is the term name(args...) on both sides; the Python reference parser/evaluator and renderer (harness/qlang.py) are independent of the model and compared with the model's render/denote on every case",
     ]
     ASSUMPTIONS = [
-        "ASCII text; string values without ';' and backslash; dict literals with distinct keys; identifiers [A-Za-z_][A-Za-z0-9_]*",
+        "ASCII text; string values without ';' and backslash; dict literals with distinct keys; identifiers [A-Za-z_][A-Za-z0-9_]*; integer literals of at most 4300 digits (CPython's int() limit, model parameter maxIntDigits)",
         "whitespace only around , : = ; (not directly inside brackets)",
         "builtins do not mutate the namespace dict they are handed; nesting below CPython's recursion limit",
     ]
